@@ -119,6 +119,10 @@ func checkC02(w *World, r *Report) {
 	ruleDecorAlwaysCalled(w, r, "C02")
 	ruleTriggerCancels(w, r, "C02")
 	ruleRenderTerminal(w, r, "C02")
+	ruleStateAgrees(w, r, "C02")
+	ruleHeapIndex(w, r, "C02")
+	ruleFixArm(w, r, "C02")
+	ruleBarWait(w, r, "C02")
 
 	// R2: getter finality ---------------------------------------------------
 	checkGetterFinality(w, r, "C02.R2")
